@@ -178,7 +178,7 @@ def run(ctx):
         raise ToolError(f"only {len(records)} REPLAY records")
     build_wild()
     records.sort(key=lambda r: (r["idx"], json.dumps(r["nodes"], sort_keys=True)))
-    budget = 600 if ctx.quick else 8000
+    budget = 400 if ctx.quick else 8000
     if len(records) > budget:
         records = rng.sample(records, budget)
     stats = {"scripts": 0, "symbols_compared": 0, "agree": 0, "known_dev": {}, "ld_rejected": 0}
@@ -269,30 +269,15 @@ def run(ctx):
                             f"(the spec is wrong, not wild):\n" + "\n".join(model_errors[:8]))
         if wild_failed:
             raise ToolError(f"wild failed on {len(wild_failed)} scripts that GNU ld accepts: {wild_failed[:3]}")
-        # ---- version tables: TLC-checked consistency of every wild output; sanity on GNU ld's
-        from concurrent.futures import ThreadPoolExecutor
-        with ThreadPoolExecutor(max_workers=2) as ex:
-            f_ld = ex.submit(validate_tables, d, obs_ld[:300], "ld")
-            f_w = ex.submit(validate_tables, d, obs_wild, "wild")
-            bad_ld, _ = f_ld.result()
-            bad_w, obs_states = f_w.result()
-        if bad_ld:
-            raise ToolError(f"VersionTables predicates reject GNU ld's own outputs (predicate wrong): {list(bad_ld.items())[:3]}")
-        for k, probs in sorted(bad_w.items()):
-            rec, sc, w_out, text = by_id[k]
-            for pr in probs:
-                ctx.verdict.report(
-                    f"tables:{pr}", f"version tables of wild's output inconsistent ({pr}) for script {text.strip()!r}",
-                    lambda: save_replay(PROP, f"tables-{rec['idx']}-{pr}",
-                                        files={"v.map": text, "vs.o": obj.read_bytes(), "libver.so": lib.read_bytes(),
-                                               "out.wild.so": w_out.read_bytes()},
-                                        meta={"args": ["-shared", "-soname", "libt.so", "--version-script", "v.map", "vs.o",
-                                                       "libver.so", "-o", "out.so"], "problems": probs}))
-        # ---- binding demonstration: corrupt one accepted output (vd_hash of the 2nd verdef) -> rejected
+        # ---- version tables: one TLC run checks (a) every wild output, (b) GNU ld outputs as a sanity
+        # check of the predicates (ids + 1000000), (c) a deliberately corrupted copy of an accepted
+        # wild output (id 9999999: one bit of vd_hash of the 2nd verdef flipped) that must be rejected
+        LD_BASE, CORRUPT_ID = 1000000, 9999999
+        batch = list(obs_wild)
+        for o in obs_ld[:300]:
+            batch.append(dict(o, id=o["id"] + LD_BASE))
         demo = None
         for k, (rec, sc, w_out, text) in by_id.items():
-            if k in bad_w:
-                continue
             e = Elf(w_out)
             sec = e.section_of_type(0x6ffffffd)
             if sec is None or len(e.verdefs()) < 2:
@@ -303,11 +288,29 @@ def run(ctx):
             data[off] ^= 0x40
             corrupt = d / "corrupt.so"
             corrupt.write_bytes(bytes(data))
-            bad_c, _ = validate_tables(d, [symobs.version_observation(Elf(corrupt), 0)], "corrupt")
-            demo = {"mutation": "flip one bit of vd_hash in an accepted output", "rejected": bool(bad_c), "problems": bad_c.get(0)}
-            if not bad_c:
-                raise ToolError("binding demonstration failed: corrupted vd_hash accepted by VersionTables")
+            batch.append(symobs.version_observation(Elf(corrupt), CORRUPT_ID))
+            demo = {"mutation": f"flip one bit of vd_hash in wild's output for script #{rec['idx']}", "rejected": False}
             break
+        bad, obs_states = validate_tables(d, batch, "all")
+        bad_ld = {k: v for k, v in bad.items() if LD_BASE <= k < CORRUPT_ID}
+        bad_w = {k: v for k, v in bad.items() if k < LD_BASE}
+        if bad_ld:
+            raise ToolError(f"VersionTables predicates reject GNU ld's own outputs (predicate wrong): {list(bad_ld.items())[:3]}")
+        if demo is not None:
+            demo["rejected"] = CORRUPT_ID in bad
+            demo["problems"] = bad.get(CORRUPT_ID)
+            if CORRUPT_ID not in bad:
+                raise ToolError("binding demonstration failed: corrupted vd_hash accepted by VersionTables")
+        for k, probs in sorted(bad_w.items()):
+            rec, sc, w_out, text = by_id[k]
+            for pr in probs:
+                ctx.verdict.report(
+                    f"tables:{pr}", f"version tables of wild's output inconsistent ({pr}) for script {text.strip()!r}",
+                    lambda: save_replay(PROP, f"tables-{rec['idx']}-{pr}",
+                                        files={"v.map": text, "vs.o": obj.read_bytes(), "libver.so": lib.read_bytes(),
+                                               "out.wild.so": w_out.read_bytes()},
+                                        meta={"args": ["-shared", "-soname", "libt.so", "--version-script", "v.map", "vs.o",
+                                                       "libver.so", "-o", "out.so"], "problems": probs}))
         cov["binding_demo"] = demo
         cov["tables_validated"] = {"wild_outputs": len(obs_wild), "gnu_ld_outputs": min(len(obs_ld), 300), "rejected": len(bad_w)}
         cov["states"] += obs_states
